@@ -89,8 +89,14 @@ class HTMLTokenizer(object):
             charStack.append(c)
             c = self.stream.char()
 
-        # Convert the set of characters consumed to an int.
-        charAsInt = int("".join(charStack), radix)
+        # Convert the set of characters consumed to an int. A number with
+        # more than 7 significant digits is above 0x10FFFF whatever the radix;
+        # not converting it also keeps us below int()'s maximum-digits limit.
+        numStr = "".join(charStack).lstrip("0")
+        if len(numStr) > 7:
+            charAsInt = 0x110000
+        else:
+            charAsInt = int(numStr or "0", radix)
 
         # Certain characters get replaced with others
         if charAsInt in replacementCharacters:
